@@ -903,6 +903,7 @@ impl App {
                     self.closed_locally = true;
                 }
                 AuxOp::LocalAddrChanged => c.local_address_changed(),
+                AuxOp::PathChanged => c.path_changed(now),
                 AuxOp::ResetOpen { nth, code } => {
                     let ids: Vec<u64> = self.send.iter().filter(|(_, s)| s.fwd && !s.done && !s.closed).map(|(k, _)| *k).collect();
                     if !ids.is_empty() {
